@@ -2,7 +2,9 @@
 (* events of one interpreter per binding configuration:
      [ev |-> "import", cfg, module, ok]
      [ev |-> "codec", cfg, what, ok]          builds / encodes / decodes / facade over a duck-typed device
-     [ev |-> "init", cfg, dev, rw, ini, class, exc, opens, connects, url, ctx]                          *)
+     [ev |-> "init", via, cfg, dev, rw, ini, class, exc, opens, connects, url, ctx, touched]
+       via = "init_device" | "SCSIDevice" | "ISCSIDevice" (the class constructed directly);
+       touched = number of file-system accesses (open, stat, ...) made during the call            *)
 EXTENDS BindingsRules, Json, IOUtils
 Trace == JsonDeserialize(IOEnv.TRACE_FILE)
 NoStrings == {}
@@ -11,8 +13,8 @@ Judge(e) ==
     CASE e.ev = "import" -> IF e.ok THEN {} ELSE {<<"ImportsAlways", e.module>>}
       [] e.ev = "codec"  -> IF e.ok THEN {} ELSE {<<"CodecWithoutBindings", e.what>>}
       [] e.ev = "init" ->
-           LET x == Expect(e.cfg, e.dev, e.rw, e.ini) IN
-           (IF x.exc # "" /\ (e.opens # <<>> \/ e.connects # 0) THEN {<<"MissingRefusedBeforeOpen", "">>} ELSE {})
+           LET x == ExpectVia(e.via, e.cfg, e.dev, e.rw, e.ini) IN
+           (IF x.exc # "" /\ (e.opens # <<>> \/ e.connects # 0 \/ e.touched # 0 \/ e.url # <<>> \/ e.ctx # <<>>) THEN {<<"MissingRefusedBeforeOpen", "">>} ELSE {})
            \cup (IF e.exc # x.exc \/ e.class # x.class THEN {<<"RightDeviceOrRefusal", ToJson([class |-> x.class, exc |-> x.exc])>>} ELSE {})
            \cup (IF x.exc = "" /\ e.exc = "" /\ (e.opens # x.opens \/ e.connects # x.connects \/ e.url # x.url
                                      \/ (x.class = "ISCSIDevice" /\ e.ctx # x.ctx))
